@@ -97,8 +97,9 @@ CAPTURED_INTS = ("G1", "G2", "c1", "c2", "Cfg.threshold", "Cfg.Inner.deep", "Tig
 # hkw / hkw2: a keyword call (not inlinable positionally) INSIDE a helper that is inlined, its arguments mentioning the helper's parameter
 HELPERS = (("h1", 1), ("h2", 2), ("ident", 1), ("h3", 1), ("hl", 1), ("hshadow", 1), ("not_inlinable", 1), ("hkw", 1), ("hkw2", 2))
 # binder names that collide with captured names.  Names that occur FREE in a helper body (h1, h2 in h3; G2 in hl)
-# or are bound inside one (v in hsel) are kept out: inlining is not capture-avoiding (known finding, see below)
-SHADOW_NAMES = ("G1", "c1", "ident", "x", "a", "q", "Cfg", "e", "e", "j", "t")
+# are kept out: a call-site binder of that name would capture them (known finding, see below); names bound INSIDE a
+# helper (v in hsel) are allowed since the fix that renames such locals
+SHADOW_NAMES = ("G1", "c1", "ident", "x", "a", "q", "Cfg", "e", "e", "j", "t", "v", "v")
 
 
 def comp_template(rng) -> str:
@@ -436,10 +437,16 @@ def run_same_callable_twice(ctx, n: int):
 
 
 KNOWN_CAPTURE_SCENARIOS = [
-    # an argument mentions a name that a lambda INSIDE the helper binds (F22)
-    ("def hk(x): return x.jets.Select(lambda j: j.pt + x.met)", "lambda j: hk(j)", "j"),
     # a binder at the call site is named like a name that is FREE in the helper body
     ("def hk(x): return h1(x) * 2", "lambda e: (lambda q, h1: hk(e.met))(1, 2)", "e"),
+]
+# repaired (fix: locals of an inlined body that an argument mentions are renamed): must hold, no key
+FIXED_CAPTURE_SCENARIOS = [
+    # an argument mentions a name that a lambda INSIDE the helper binds
+    ("def hk(x): return x.jets.Select(lambda j: j.pt + x.met)", "lambda j: hk(j)", "j"),
+    ("def hk(x, y): return x.trks.Select(lambda e: e.pt + y).Sum()", "lambda e: e.jets.Select(lambda j: hk(j, e.met * 100)).Sum()", "e"),
+    ("def hk(x): return [j.pt + x.met for j in x.jets]", "lambda j: hk(j)", "j"),
+    ("def hk(x, j_1): return x.jets.Select(lambda j: j.pt + x.met + j_1)", "lambda j: hk(j, 1)", "j"),
 ]
 
 
@@ -447,14 +454,15 @@ def known_capture_oracle(ctx):
     "inlining a helper is not capture-avoiding (known finding): dedicated witnesses, reported under one key"
     DS = _dataset_cls()
     events = [pyworld.to_world(e) for e in rich_dataset(ctx.rng)]
-    for helper, lam_src, param in KNOWN_CAPTURE_SCENARIOS:
+    for helper, lam_src, param in KNOWN_CAPTURE_SCENARIOS + FIXED_CAPTURE_SCENARIOS:
+        known_key = "C05-name-capture-on-inlining" if (helper, lam_src, param) in KNOWN_CAPTURE_SCENARIOS else None
         text = HEADER + f"\n{helper}\n\ndef build(ds):\n    ref = ({lam_src})\n    s = ds.Select({lam_src})\n    return s, ref\n"
         mod = srcmod.make_module(text, "known")
         try:
             try:
                 s, ref = mod.build(DS())
             except Exception as e:
-                ctx.violate({"helper": helper, "lambda": lam_src}, f"raised {type(e).__name__}", key="C05-name-capture-on-inlining")
+                ctx.violate({"helper": helper, "lambda": lam_src}, f"raised {type(e).__name__}", key=known_key)
                 continue
             ctx.count("known:" + lam_src, True, tags=["known-capture-scenario"])
             lam = s.query_ast.args[1]
@@ -469,7 +477,7 @@ def known_capture_oracle(ctx):
                     got = f"raises {type(e).__name__}"
                 if got != want:
                     ctx.violate({"helper": helper, "lambda": lam_src, "recorded": ast.unparse(lam), "python": repr(want)[:80], "recorded_value": repr(got)[:80]},
-                                "inlining captured a name (binder at the call site / inside the helper)", key="C05-name-capture-on-inlining")
+                                "inlining captured a name (binder at the call site / inside the helper)", key=known_key)
                     break
         finally:
             srcmod.drop_module(mod)
